@@ -3,14 +3,6 @@
  * LE = least significant byte first, two's complement, IEEE-754 binary64 bit pattern for doubles. */
 #ifndef VERIF_SPEC_H
 #define VERIF_SPEC_H
-#define U8(p, i) ((uint64_t)(uint8_t)(p)[i])
-#define LD_BE32(p) ((uint32_t)((U8(p,0) << 24) | (U8(p,1) << 16) | (U8(p,2) << 8) | U8(p,3)))
-#define LD_LE32(p) ((uint32_t)((U8(p,3) << 24) | (U8(p,2) << 16) | (U8(p,1) << 8) | U8(p,0)))
-#define LD_BE64(p) ((uint64_t)((U8(p,0) << 56) | (U8(p,1) << 48) | (U8(p,2) << 40) | (U8(p,3) << 32) | (U8(p,4) << 24) | (U8(p,5) << 16) | (U8(p,6) << 8) | U8(p,7)))
-#define LD_LE64(p) ((uint64_t)((U8(p,7) << 56) | (U8(p,6) << 48) | (U8(p,5) << 40) | (U8(p,4) << 32) | (U8(p,3) << 24) | (U8(p,2) << 16) | (U8(p,1) << 8) | U8(p,0)))
-static uint64_t verif_bits(double d) { uint64_t u; __CPROVER_assert(sizeof(u) == sizeof(d), "spec: double is 64 bit"); memcpy(&u, &d, 8); return u; }
-#define BITS(d) verif_bits(d)
-
 /* harness input builders ------------------------------------------------------------------------------- */
 /* p points at least N bytes before the end of a heap buffer of arbitrary size; remembers base/size for frames */
 #define RBUF(p, N) \
@@ -40,3 +32,7 @@ static uint64_t verif_bits(double d) { uint64_t u; __CPROVER_assert(sizeof(u) ==
 #define FRAME_PRE(p) size_t p##_fj = nondet_size_t(); __CPROVER_assume(p##_fj < p##_n); uint8_t p##_fold = p##_base[p##_fj];
 #define FRAME_OK(p, lo, hi) ((p##_fj >= p##_off + (lo) && p##_fj < p##_off + (hi)) || p##_base[p##_fj] == p##_fold)
 #endif
+/* a vector of n <= maxn elements of arbitrary contents */
+#define ANYVEC(v, maxn) \
+  (v).size = nondet_size_t(); __CPROVER_assume((v).size <= (maxn)); (v).cap = (v).size ? (v).size : 1; \
+  (v).data = malloc((v).cap * sizeof(*(v).data)); __CPROVER_assume((v).data != 0);
